@@ -626,7 +626,7 @@ def normalise_module(tree, module_name: str) -> int:
             if "guards" in r:
                 n += normalise_function(fn, r)
                 for step in (N3.items_to_keys, N3.unpack_to_index, N3.expand_next, N3.expand_next_search, N3.expand_dict_dispatch, N3.expand_joins, N3.split_new_tuple_assigns, N3.dup_tails, N3.split_flagged_branches,
-                             N2.merge_branch_assignments, N2.inline_new_locals, N2.inline_new_locals, N3.expand_dict_dispatch, N3.unroll_display_loops, N3.expand_joins, N2._ifexp_calls, N2.ifexp_tests, N2.split_ifexp_statements, N2.expand_new_comprehensions, N3.unroll_display_loops, N2.split_ifexp_statements, N2.contract_known_loops, N2.inline_new_locals, N2.contract_known_ifexp, N3.factor_chain_conjunct, N2.inline_new_locals, N2.unguard, N2.guardify):
+                             N2.merge_branch_assignments, N2.inline_new_locals, N2.inline_new_locals, N3.expand_dict_dispatch, N3.unroll_display_loops, N3.expand_joins, N3.fuse_comp_loops, N2._ifexp_calls, N2.ifexp_tests, N2.split_ifexp_statements, N2.expand_new_comprehensions, N3.unroll_display_loops, N2.split_ifexp_statements, N2.contract_known_loops, N2.inline_new_locals, N2.contract_known_ifexp, N3.factor_chain_conjunct, N2.inline_new_locals, N2.unguard, N2.guardify):
                     try:
                         n += step(fn, r)
                     except Exception:   # pragma: no cover
